@@ -310,11 +310,14 @@ func scalarReflectFromGo(schema *schema_j5pb.Field, value interface{}) (protoref
 		switch st.Float.Format {
 
 		case schema_j5pb.FloatField_FORMAT_FLOAT32:
-			if val > math.MaxFloat32 || val < -math.MaxFloat32 {
+			// compare after rounding: the shortest decimal form of
+			// math.MaxFloat32 is slightly above it as a float64
+			f32 := float32(val)
+			if math.IsInf(float64(f32), 0) && !math.IsInf(val, 0) {
 				return pv, fmt.Errorf("float64 value %v is out of range for float32", val)
 			}
 
-			return protoreflect.ValueOfFloat32(float32(val)), nil
+			return protoreflect.ValueOfFloat32(f32), nil
 
 		case schema_j5pb.FloatField_FORMAT_FLOAT64:
 			return protoreflect.ValueOfFloat64(val), nil
